@@ -5,7 +5,9 @@ import (
 	"encoding/base64"
 	"errors"
 	"fmt"
+	"net/http"
 	"net/http/httptest"
+	"net/url"
 	"os"
 	"runtime/debug"
 	"strconv"
@@ -67,9 +69,14 @@ type Case struct {
 	Issuer      *string `json:"issuer,omitempty"`
 	ACSURL      *string `json:"acs_url,omitempty"`
 	ACSIndex    *string `json:"acs_index,omitempty"`
-	Style       int     `json:"style,omitempty"`
-	Rot         int     `json:"rot,omitempty"`
-	Relay       string  `json:"relay,omitempty"`
+	// Binding is the optional ProtocolBinding attribute: it is no input of the routing rule.
+	Binding *string `json:"protocol_binding,omitempty"`
+	// Delivery describes the client-controlled parts of the HTTP request that carries the AuthnRequest;
+	// Destination must equal the configured SSO URL whatever the delivery looks like.
+	Delivery Delivery `json:"delivery"`
+	Style    int      `json:"style,omitempty"`
+	Rot      int      `json:"rot,omitempty"`
+	Relay    string   `json:"relay,omitempty"`
 
 	Target string `json:"target,omitempty"` // initiated: service provider id
 
@@ -81,6 +88,81 @@ type Case struct {
 	// content has been replaced by Then.Providers; it is judged against the registry at that moment.
 	// Only Kind, Providers, FaultFor, Target and the request fields of Then are used.
 	Then *Case `json:"then,omitempty"`
+}
+
+// Delivery: where and how the user agent delivered the message ("" = as the SSO URL says).
+type Delivery struct {
+	Host    string `json:"host,omitempty"`   // Host header and request URL host
+	Scheme  string `json:"scheme,omitempty"` // request URL scheme
+	Path    string `json:"path,omitempty"`   // request URL path
+	Query   string `json:"query,omitempty"`  // extra query parameters in front of SAMLRequest
+	XFHost  string `json:"x_forwarded_host,omitempty"`
+	XFProto string `json:"x_forwarded_proto,omitempty"`
+}
+
+// apply rewrites the client-controlled parts of r.
+func (d Delivery) apply(r *http.Request) {
+	if d.Host != "" {
+		r.Host, r.URL.Host = d.Host, d.Host
+	}
+	if d.Scheme != "" {
+		r.URL.Scheme = d.Scheme
+	}
+	if d.Path != "" {
+		r.URL.Path = d.Path
+	}
+	if d.Query != "" {
+		if r.URL.RawQuery != "" {
+			r.URL.RawQuery = d.Query + "&" + r.URL.RawQuery
+		} else {
+			r.URL.RawQuery = d.Query
+		}
+	}
+	if d.XFHost != "" {
+		r.Header.Set("X-Forwarded-Host", d.XFHost)
+		r.Header.Set("Forwarded", "host="+d.XFHost)
+	}
+	if d.XFProto != "" {
+		r.Header.Set("X-Forwarded-Proto", d.XFProto)
+	}
+	r.RequestURI = r.URL.RequestURI()
+}
+
+// seenAs lists the URLs under which the delivery makes the SSO endpoint appear (all different from the configured one
+// are "another IdP" as far as Destination is concerned).
+func (d Delivery) seenAs(sso string) []string {
+	u, err := url.Parse(sso)
+	if err != nil {
+		return nil
+	}
+	var out []string
+	add := func(f func(x *url.URL)) {
+		x := *u
+		f(&x)
+		if x.String() != sso {
+			out = append(out, x.String())
+		}
+	}
+	if d.Host != "" {
+		add(func(x *url.URL) { x.Host = d.Host })
+	}
+	if d.XFHost != "" {
+		add(func(x *url.URL) { x.Host = d.XFHost })
+		add(func(x *url.URL) { x.Host = d.XFHost; x.Scheme = d.XFProto })
+	}
+	if d.Path != "" {
+		add(func(x *url.URL) { x.Path = d.Path })
+		if d.Host != "" {
+			add(func(x *url.URL) { x.Host = d.Host; x.Path = d.Path })
+		}
+	}
+	if d.Scheme != "" {
+		add(func(x *url.URL) { x.Scheme = d.Scheme })
+	}
+	if d.Query != "" {
+		add(func(x *url.URL) { x.RawQuery = d.Query })
+	}
+	return out
 }
 
 const (
@@ -270,6 +352,26 @@ func gen(t *rapid.T) Case {
 		c.Destination = idpkit.P(v)
 	default:
 		c.Destination = idpkit.P("")
+	}
+
+	// client-controlled delivery of the message
+	if rapid.IntRange(0, 2).Draw(t, "delivery") == 0 {
+		c.Delivery = Delivery{
+			Host:    rapid.SampledFrom([]string{"", "evil.example.net", "idp-alias.example.org:8443", "localhost"}).Draw(t, "delivery-host"),
+			Scheme:  rapid.SampledFrom([]string{"", "", "http", "https"}).Draw(t, "delivery-scheme"),
+			Path:    rapid.SampledFrom([]string{"", "", "/sso/", "/other/sso", "/saml/slo"}).Draw(t, "delivery-path"),
+			Query:   rapid.SampledFrom([]string{"", "", "tenant=t1", "Destination=x&a=b"}).Draw(t, "delivery-query"),
+			XFHost:  rapid.SampledFrom([]string{"", "", "evil.example.net", "proxy.example.org"}).Draw(t, "delivery-xfh"),
+			XFProto: rapid.SampledFrom([]string{"", "http", "https"}).Draw(t, "delivery-xfp"),
+		}
+		if seen := c.Delivery.seenAs(sso); len(seen) > 0 && rapid.IntRange(0, 1).Draw(t, "dest-as-delivered") == 0 {
+			// the request is made out to the address it was delivered at, not to this IdP's SSO URL
+			c.Destination = idpkit.P(rapid.SampledFrom(seen).Draw(t, "dest-delivered"))
+		}
+	}
+	// ProtocolBinding
+	if rapid.IntRange(0, 2).Draw(t, "protocol-binding") == 0 {
+		c.Binding = idpkit.P(rapid.SampledFrom([]string{post, post, redirect, artifact, soap, unknownB, ""}).Draw(t, "binding-attr"))
 	}
 
 	// Version
@@ -479,7 +581,7 @@ var lexForms = []func(time.Time) string{
 }
 
 func (c Case) spec(now time.Time) idpkit.ReqSpec {
-	s := idpkit.ReqSpec{ID: c.ID, Version: c.Version, Destination: c.Destination, Issuer: c.Issuer, ACSURL: c.ACSURL, ACSIndex: c.ACSIndex, Style: c.Style, Rot: c.Rot}
+	s := idpkit.ReqSpec{ID: c.ID, Version: c.Version, Destination: c.Destination, Issuer: c.Issuer, ACSURL: c.ACSURL, ACSIndex: c.ACSIndex, Binding: c.Binding, Style: c.Style, Rot: c.Rot}
 	switch c.Instant {
 	case "age":
 		s.IssueInstant = idpkit.P(lexForms[c.Lex%len(lexForms)](now.Add(-time.Duration(c.AgeMs) * time.Millisecond)))
@@ -641,6 +743,13 @@ func (c Case) classes() []string {
 	opt("version", c.Version)
 	opt("acs-url", c.ACSURL)
 	opt("acs-index", c.ACSIndex)
+	opt("protocol-binding", c.Binding)
+	if c.Delivery != (Delivery{}) {
+		cl = append(cl, "delivery:client-controlled-parts-varied")
+		if c.Destination != nil && idpkit.InSet(*c.Destination, c.Delivery.seenAs(c.Base+"/sso")...) {
+			cl = append(cl, "destination:as-delivered")
+		}
+	}
 	return cl
 }
 
@@ -750,6 +859,7 @@ func (c Case) step(idp *saml.IdentityProvider, reg *idpkit.Registry, sess *idpki
 	}
 
 	httpReq := idpkit.Encode(c.Method, doc, c.Relay, c.Base+"/sso")
+	c.Delivery.apply(httpReq)
 
 	if c.Kind == "validate" {
 		var req *saml.IdpAuthnRequest
@@ -793,6 +903,34 @@ func (c Case) step(idp *saml.IdentityProvider, reg *idpkit.Registry, sess *idpki
 		}
 		if req.ACSEndpoint.Location != "" && c.ACSURL != nil && req.ACSEndpoint.Location == *c.ACSURL && rule != "by-url" {
 			res.Classes = append(res.Classes, "select:coincides-with-request-url")
+		}
+		if c.Binding != nil {
+			// ProtocolBinding is no input of the routing rule: it never makes a request acceptable that is not
+			// acceptable without it, nor changes the Location a request designates
+			plain := c
+			plain.Binding = nil
+			r2 := idpkit.Encode(c.Method, plain.spec(now).XML(), c.Relay, c.Base+"/sso")
+			c.Delivery.apply(r2)
+			var req2 *saml.IdpAuthnRequest
+			var err2 error
+			func() {
+				defer func() {
+					if e := recover(); e != nil {
+						err2 = fmt.Errorf("panic: %v", e)
+					}
+				}()
+				if req2, err2 = saml.NewIdpAuthnRequest(idp, r2); err2 == nil {
+					err2 = req2.Validate()
+				}
+			}()
+			res.Classes = append(res.Classes, "protocol-binding:compared-with-plain-request")
+			if err2 != nil {
+				return fail("with ProtocolBinding=%q the request is processed (endpoint %s), without the attribute the same request is refused (%v)\nrequest: %s\nregistered: %s",
+					*c.Binding, idpkit.EndpointKey(req.ACSEndpoint), err2, doc, idpkit.Keys(idpkit.AllACS(md)))
+			}
+			if req2.ACSEndpoint == nil || req2.ACSEndpoint.Location != req.ACSEndpoint.Location {
+				return fail("ProtocolBinding=%q changes the designated endpoint: %s with it, %s without\nrequest: %s", *c.Binding, idpkit.EndpointKey(req.ACSEndpoint), idpkit.EndpointKey(req2.ACSEndpoint), doc)
+			}
 		}
 		return res
 	}
@@ -1017,9 +1155,19 @@ func enumSelection(_ string, emit func(Case)) {
 							i2 = 1
 						}
 						sp := SPMeta{EntityID: "https://sp0.example.com/saml/metadata", Descs: [][]EP{{{Binding: b1, Location: locA, Index: 1, Default: d1}, {Binding: b2, Location: locB, Index: i2, Default: d2}}}}
-						for r := 0; r < 6; r++ {
+						for rb := 0; rb < 6*4; rb++ {
+							r := rb % 6
 							c := Case{Kind: "validate", Base: "https://idp.example.com", DelayMs: 90000, Providers: []SPMeta{sp}, Method: "POST",
 								Instant: "age", AgeMs: 1000, ID: idpkit.P("id-1"), Version: idpkit.P("2.0"), Issuer: idpkit.P(sp.EntityID)}
+							// the optional ProtocolBinding attribute: absent, the first / second endpoint's binding, an unknown one
+							switch rb / 6 {
+							case 1:
+								c.Binding = idpkit.P(b1)
+							case 2:
+								c.Binding = idpkit.P(b2)
+							case 3:
+								c.Binding = idpkit.P("urn:example:binding")
+							}
 							switch r {
 							case 1:
 								c.ACSIndex = idpkit.P("1")
@@ -1093,6 +1241,22 @@ func enumDestinations(_ string, emit func(Case)) {
 				}
 			}
 		}
+		// the message is delivered in a way the client chose (Host header, forwarding headers, path, query) and is made
+		// out to the address it was delivered at, or to the configured SSO URL
+		for _, dl := range []Delivery{
+			{Host: "evil.example.net"}, {Host: "idp-alias.example.org:8443"}, {XFHost: "evil.example.net", XFProto: "https"}, {XFHost: "proxy.example.org", XFProto: "http"},
+			{Path: "/saml/slo"}, {Path: "/other/sso", Host: "evil.example.net"}, {Scheme: "http"}, {Query: "tenant=t1"},
+			{Host: "evil.example.net", Scheme: "http", Path: "/x", Query: "a=b", XFHost: "proxy.example.org", XFProto: "https"},
+		} {
+			for _, d := range append([]string{conf.SSOURL()}, dl.seenAs(conf.SSOURL())...) {
+				for _, m := range []string{"GET", "POST"} {
+					for _, k := range []string{"validate", "sso"} {
+						emit(Case{Kind: k, Base: base, DelayMs: 90000, Providers: []SPMeta{sp}, Method: m, Instant: "age", AgeMs: 1000,
+							ID: idpkit.P("id-1"), Version: idpkit.P("2.0"), Issuer: idpkit.P(sp.EntityID), Destination: idpkit.P(d), Delivery: dl})
+					}
+				}
+			}
+		}
 	}
 }
 
@@ -1147,6 +1311,7 @@ var prop = &pbt.Prop[Case]{
 		"IdP configuration fields no clause mentions are varied (LogoutURL, LoginURL, ValidDuration, form template, explicit assertion maker, Signer, signature method), endpoints may carry ResponseLocation and zero / huge / negative indices, " +
 		"forged Destinations include the other identifiers of the same deployment (logout, metadata, login URL) and of the requesting SP, and a quarter of the cases are two-step sequences on ONE IdentityProvider value with the registry replaced in between (the second step is judged against the registry at that moment); " +
 		"IssueInstant is written in seven lexical forms (Z, positive / negative offsets, trimmed and 9-digit fractions, zone-less = UTC) while the process's local zone (time.Local) is UTC or one of -12h..+14h; " +
+		"the optional ProtocolBinding attribute (absent / each standard binding / unknown / empty) is crossed with the selection grid and judged by a metamorphic clause (it never makes a request acceptable nor changes the designated Location); the client-controlled delivery of the message is varied (Host header and URL host, scheme, path, extra query, X-Forwarded-Host/Proto) with Destinations made out to the address of delivery; " +
 		"exhaustive: MaxIssueDelay x age lattice (+-1 ms) x lexical form x local zone, two-endpoint selection grid, 3^5 field presence grid, destination x LogoutURL/LoginURL grid, re-registration sequences. " +
 		"non-trivial: >=2 registered endpoints and the request names an index or URL; or a field absent/forged/must-reject; or IssueInstant within 1 ms of the limit; IdP-initiated: unknown/faulty provider or >=2 endpoints. distinct: sha256 of the JSON case.",
 	Gen:   gen,
@@ -1167,6 +1332,7 @@ var prop = &pbt.Prop[Case]{
 		"non-vacuity (not part of the property): a request valid under every clause with a certainly resolvable endpoint must be processed",
 		"registry entity IDs are non-empty; a Logger is configured (the handlers dereference it)",
 		"the form target is judged against the set of Locations derived from the request and the registry alone (AllowedTargets), in addition to the endpoint the implementation reports as selected",
+		"ProtocolBinding is not an input of the routing rule the property states: a request processed with it must also be processed, to the same Location, without it (an implementation may refuse more because of it, never accept more)",
 		"negative index spellings are judged by the index rule but carry no non-vacuity obligation (the schema type is unsignedShort)",
 	},
 }
